@@ -1,7 +1,7 @@
 # Driver configuration for property C05
 PROP = dict(
     pkg="c05", level="fault_enumeration",
-    technique="fault-injection PBT: every committed write k of a generated operation script is turned into a crash point and into a failing commit; differential against fault-free reference nodes",
+    technique="fault-injection PBT: every committed write k of a generated operation script is turned into a crash point and into a failing commit; and every single write one operation stages into its batch into a failing write; differential against fault-free reference nodes",
     level_text=("Fault enumeration per generated case: all commit indices (thorough) or a drawn subset (quick) x {crash image reopened by a fresh "
                 "Blockchain, injected commit error with the same object continuing}. Juno's grouping of effects into commits is what is enumerated. "
                 "On the in-memory store the batch is atomic by construction; about a fifth of the cases run on a real Pebble v2 store with a block whose "
@@ -12,7 +12,8 @@ PROP = dict(
                 "same Blockchain object reads after a failed commit. Pebble's own WAL/recovery is trusted. "
                 "TestPropPruneInterrupted enumerates the committed writes of PruneUpto the same way "
                 "(crash image, failing write through the function, failing write under the real pruner service that shares its in-memory "
-                "retention floor with the Blockchain); the pruning policy itself is C16's."),
+                "retention floor with the Blockchain); the pruning policy itself is C16's. TestPropFailedWriteInsideOp fails every single write (Put / Delete / DeleteRange into the batch) "
+                "of one chosen op in turn: a reported failure must leave the same object at the chain before the op, an unreported one at the chain after it."),
     rule=("scripts of 4-10 ops over store/revert/set-L1-head/persist-snapshot/graceful/ungraceful restart on both state backends, 12% on the 8188-block base "
           "(real window rollover; half of those follow a skeleton: stores reaching/crossing 8192, optional graceful restart, ungraceful restart, then the first "
           "accesses of the lazily initialised running filter); 22% on Pebble v2 with scripts of 3-7 ops in which the first or second store declares every "
@@ -24,7 +25,9 @@ PROP = dict(
           "the head state's view of the large classes (definition intact, CASM hashes) is part of every observation; "
           "after a failed store a drawn detour reverts and re-stores the head before the retry; non-trivial = fault inside a store or revert; distinct = SHA-256 of the op list. "
           "Prune test: chains of 22-40 blocks, optional earlier prune, 1-byte or default batches, fault at every (quick: 4 drawn) committed write; "
-          "non-trivial = fault strictly inside the prune."),
+          "non-trivial = fault strictly inside the prune. "
+          "Single-write faults: 2 (Pebble / base: 1) drawn writes per script case, and in TestPropFailedWriteInsideOp all W writes (quick: at most 120) of one store / revert (preferred) / "
+          "set-L1-head / snapshot op on a fresh copy of the image the script prefix left, blocks of up to 3 transactions incl. L1 handlers."),
     assumptions=["memory backend image = crash image; on Pebble the image is a checkpoint of the real store (Pebble's WAL replay / recovery trusted)",
                  "pruning policy (which floor is chosen) is exercised in C16, not here"],
     runs=[dict(run="^Test(Prop|Known)")],
